@@ -225,11 +225,30 @@ def spec_c04(case, trace):
                 elif o == "drop" and h > 0:
                     h -= 1
             handles_left += h
+    # finding F9's signature: the sender had written its ping and was about to block, and the loop tried to receive
+    # (and found the rendezvous queue empty) before the sender got as far as blocking
+    pinged, recv_before_block = set(), set()
+    drain_mark = None
     for l in trace:
         w = l.split()
         if w[0] != "step":
             continue
         t, label = int(w[1]), w[2]
+        if t != 0 and label == "efd.written":
+            pinged.add(t)
+        if t == 0 and label == "chan.recv":
+            recv_before_block |= {u for u in pinged if u not in blocked_since}
+        # the loop processed the channel (it drained the eventfd) while a sender was already blocked in send(): the queue
+        # is full (or the rendezvous partner is waiting), so this dispatch delivers something
+        if t == 0 and label == "efd.drain":
+            drain_mark = (set(blocked_since), len(last or []))
+        if t == 0 and label == "loop.poll" and drain_mark is not None:
+            was_blocked, ndeliv = drain_mark
+            drain_mark = None
+            still = [u for u in was_blocked if u in blocked_since]
+            if still and len(last or []) == ndeliv:
+                return ("the loop processed the channel while sender %s was blocked in send() and delivered nothing "
+                        "(the queue was full / the rendezvous partner was waiting)" % still)
         deliv = l.split("delivered=[")[1].split("]")[0]
         items = [x for x in deliv.split(",") if x]
         if "closed" in items and items[-1] != "closed":
@@ -271,7 +290,7 @@ def spec_c04(case, trace):
             loop_idle_polls += 1
             if loop_idle_polls >= 2:
                 why = "a sender is blocked in send() while the loop keeps dispatching with nothing to wake it (eventfd counter 0)"
-                return ("F9", why) if cap == 0 else why
+                return ("F9", why) if cap == 0 and all(u in recv_before_block for u in blocked_since) else why
     return None
 
 
